@@ -271,7 +271,40 @@ def run(ctx, build):
 
 
 def check_shell(ctx):
-    pass
+    from props import c19_shell as S
+    rng = ctx.rng
+    w = S.Worker()
+    found = {}
+    try:
+        seqs = []
+        sizes = S.SIZES if ctx.thorough else [0, 1, 65535, 65536, 65537, 131073]
+        for size in sizes:
+            seqs.append(('roundtrip', S.roundtrip_sequence(rng, size)))
+        nseq = 1500 if ctx.thorough else (250 if ctx.widen else 120)
+        for _ in range(nseq):
+            seqs.append(('random', S.gen_sequence(rng, rng.randrange(6, 20))))
+        for kind, seq in seqs:
+            r = S.run_sequence(w, seq)
+            ncmd = sum(1 for c in seq.cmds if c['op'] != 'put')
+            done = ncmd if r is None else sum(1 for c in seq.cmds[:r[2] + 1] if c['op'] != 'put')
+            for i in range(done):
+                ctx.case(('sh', json.dumps(seq.to_json(), sort_keys=True), i), True, 'sh-' + kind)
+            for c in seq.cmds[:(r[2] + 1) if r else len(seq.cmds)]:
+                if c['op'] != 'put':
+                    ctx.stat('sh-cmd-' + c['op'])
+            if r and r[0] not in found:
+                small = S.shrink(w, seq, r[0])
+                r2 = S.run_sequence(w, small) or r
+                log = []
+                S.run_sequence(w, small, log)
+                found[r[0]] = True
+                ctx.violation(r[0], r2[1] + '  [replay: ' + '; '.join(l[0] for l in log) + ']',
+                              dict(api='sh', sequence=small.to_json(), transcript=log))
+    finally:
+        w.close()
+    ctx.sample(dict(api='sh', sequence=['put host/src.bin (65537 bytes)', 'mkdir -p img:1/d1/sub', 'cp host/src.bin img:1/d1/sub/in.bin',
+                                        'cp -r img:1/d1 img:2/copy', 'mv img:2/copy/sub/in.bin img:2/moved.bin',
+                                        'cp img:2/moved.bin host/back.bin', 'cat ... -o host/twice.bin', 'rm -r img:1/d1']))
 
 
 def replay(ctx, obj):
@@ -281,6 +314,18 @@ def replay(ctx, obj):
         got = watchdog_case(r['size'], r['range'][0], r['range'][1])
         print('now:', got)
         return got == max(0, min(r['range'][1], r['size']) - r['range'][0])
+    if r.get('api') == 'sh':
+        from props import c19_shell as S
+        w = S.Worker()
+        try:
+            log = []
+            res = S.run_sequence(w, S.Seq(r['sequence']['vols'], r['sequence']['cmds']), log)
+        finally:
+            w.close()
+        for l in log:
+            print('  ', l)
+        print('now:', res)
+        return res is None
     if r.get('api') == 'copy_bytes':
         data = bytes(r['size'])
         got, _, _ = run_copy_case(r['source'], data, r['caps'], r['pos'], tuple(r['range']) if r['range'] else None)
